@@ -58,7 +58,7 @@ type ChecksSpec struct {
 	Delay   int
 }
 
-var delayClassNs = [...]int64{0, 200_000, 2_000_000, 3_600_000_000_000} // 0 (engine uses 1ns), 200µs, 2ms, 1h
+var delayClassNs = [...]int64{0, 200_000, 2_000_000, 3_600_000_000_000, -1_000_000_000} // 0 (engine uses 1ns), 200µs, 2ms, 1h, -1s (treated like 0)
 
 type SeqSpec struct {
 	Actions []ActionSpec
